@@ -1,6 +1,7 @@
 package main
 
 import (
+	"encoding/json"
 	"fmt"
 	"os"
 	"path/filepath"
@@ -82,6 +83,9 @@ func main() {
 			p := props[id]
 			fmt.Printf("%s quick=%s thorough=+%s\n", id, strings.Join(p.Quick, ","), strings.Join(p.Thorough, ","))
 		}
+	case "describe":
+		b, _ := json.MarshalIndent(props, "", " ")
+		fmt.Println(string(b))
 	case "rule":
 		if len(pos) != 1 {
 			usage()
